@@ -292,7 +292,7 @@ def mutants(prog):
     sub(DEF, "children tested before the container is parsed", r"(        while True:\n)            current_container\.parse\(packet\)\n\n(            valid_inheritors = \[\]\n            for inheritor_name in current_container\.inheritors:\n                if all\(rc\.evaluate\(packet\)\n                       for rc in self\.containers\[inheritor_name\]\.restriction_criteria\):\n                    valid_inheritors\.append\(inheritor_name\)\n)",
         r"\1\2            current_container.parse(packet)\n")
     sub(DEF, "inheritors only for restricted children", r"if sc\.base_container_name:\n", "if sc.base_container_name and sc.restriction_criteria:\n")
-    sub(cont, "abstract read case-sensitively", r"\(element\.attrib\['abstract'\]\.lower\(\) == 'true'\)", "(element.attrib['abstract'] == 'true')")
+    sub(cont, "abstract read case-sensitively", r"\(element\.attrib\['abstract'\]\.lower\(\) in \('true', '1'\)\)", "(element.attrib['abstract'] in ('true', '1'))")
     sub(cont, "entry list walked in reverse", r"for entry in self\.entry_list:\n            entry\.parse\(packet=packet\)", "for entry in reversed(self.entry_list):\n            entry.parse(packet=packet)")
     sub(cont, "nested containers skipped", r"for entry in self\.entry_list:\n            entry\.parse\(packet=packet\)", "for entry in self.entry_list:\n            if not isinstance(entry, SequenceContainer):\n                entry.parse(packet=packet)")
     sub("packets.py", "header view of six items", r"return dict\(list\(self\.items\(\)\)\[:7\]\)", "return dict(list(self.items())[:6])")
